@@ -20,6 +20,7 @@ type Src struct {
 	AdapterOn func() bool              // Lancero: adapter or collector still running
 	Reconf    func() error             // clears the fault and configures the source again (before a restart)
 	Feed      func(stop chan struct{}) // abacoudp: send packets to the receiver until stop is closed (nil otherwise)
+	Silence   func()                   // abaco: the hardware stops sending (nil otherwise)
 }
 
 func no() bool { return false }
@@ -99,6 +100,7 @@ func NewSrc(kind, fault string) (*Src, error) {
 			return nil, err
 		}
 		s := &Src{Kind: kind, DS: as, Any: &as.AnySource, DevOpen: p.VerifOpen, AdapterOn: no}
+		s.Silence = func() { p.VerifSetSilent(true) }
 		s.Reconf = func() error { // the hardware now sends data: a healthy producer replaces the faulty one
 			if p.VerifOpen() {
 				return fmt.Errorf("device still open (address already in use)")
